@@ -233,6 +233,7 @@ func runHarness(lp *LoadedPkg, hs *HarnessSpec, tier int, workers int, verbose b
 					}
 				}
 				in := NewInterp(lp.prog, ex)
+				in.trace = os.Getenv("GOSYM_TRACE") != ""
 				in.intMode = hs.IntMode
 				in.tier = tier
 				in.spec = hs
